@@ -54,7 +54,12 @@ class FullEngine(Engine):
                 if c is True or c is False: return PV(BOOL, BoolVal(not c))
                 return PV(BOOL, Not(c))
             if isinstance(e.op, ast.USub):
-                a = self.expr(e.operand, st, hint=hint); return PV(a.t, -a.term)
+                a = self.expr(e.operand, st, hint=hint)
+                if self.is_opq(a): return self.opq(st, 'unary_USub', [a])
+                return PV(a.t, -a.term)
+            if isinstance(e.op, ast.Invert):
+                a = self.expr(e.operand, st)
+                if self.is_opq(a): return self.opq(st, 'unary_Invert', [a])          # ~mask on a library value: a library value
         if isinstance(e, ast.BoolOp):
             # short-circuit: later operands are evaluated under the assumption that earlier ones did not decide
             terms = []; guard_len = len(st.pc); cur = st
